@@ -75,10 +75,13 @@ class Repo:
                 except SyntaxError as e:
                     raise AnalysisError(f"cannot parse {p}: {e}")
         from . import normal
+        normal.ungroup_private_state({name: tree for name, _, _, tree in parsed}, stats=self.normal_stats)
         normal.undo_private_records({name: tree for name, _, _, tree in parsed}, stats=self.normal_stats)
         normal.strip_annotations({name: tree for name, _, _, tree in parsed}, stats=self.normal_stats)
         normal.strip_diagnostics({name: tree for name, _, _, tree in parsed}, stats=self.normal_stats)
+        normal.undo_private_attr_renames({name: tree for name, _, _, tree in parsed}, stats=self.normal_stats)
         normal.undo_function_renames({name: tree for name, _, _, tree in parsed}, stats=self.normal_stats)
+        normal.undo_private_attr_renames({name: tree for name, _, _, tree in parsed}, stats=self.normal_stats)
         normal.normalise_private_calls({name: tree for name, _, _, tree in parsed}, stats=self.normal_stats)
         keyword_names = frozenset(k.arg for _, _, _, t in parsed for n in ast.walk(t) if isinstance(n, ast.Call) for k in n.keywords if k.arg)
         for name, p, src, tree in parsed:
